@@ -363,6 +363,119 @@ def check_kwargs(kw, ev=None):
         ev.case(key=case, nontrivial=len(kw) >= 1, labels=("kwargs",))
 
 
+# ---- (iii) statement forms: a context-only name read in one specific syntactic position, compared with native exec
+STATEMENT_FORMS = {
+    "for-else": "for _i in []:\n    pass\nelse:\n    out = V",
+    "for-body": "for _i in [1]:\n    out = V",
+    "for-iter": "for _i in [V]:\n    out = _i",
+    "while-else": "while False:\n    pass\nelse:\n    out = V",
+    "while-cond": "_n = 0\nwhile _n < 1 and V:\n    _n += 1\nout = V",
+    "try-else": "try:\n    pass\nexcept Exception:\n    pass\nelse:\n    out = V",
+    "try-finally": "try:\n    pass\nfinally:\n    out = V",
+    "try-except": "try:\n    raise KeyError(1)\nexcept KeyError:\n    out = V",
+    "except-type": "try:\n    out = V\nexcept (KeyError, type(V)):\n    pass",
+    "with-item": "with CM(V) as _w:\n    out = _w",
+    "with-body": "with CM(1):\n    out = V",
+    "if-test": "out = 'n'\nif V:\n    out = 'y'",
+    "elif-test": "out = 'n'\nif False:\n    pass\nelif V:\n    out = 'y'",
+    "else-body": "if False:\n    pass\nelse:\n    out = V",
+    "ifexp": "out = V if True else 0",
+    "ifexp-else": "out = 0 if False else V",
+    "boolop": "out = False or V",
+    "compare": "out = (V == V)",
+    "subscript": "out = {'k': 1}.get(V, V)",
+    "slice": "out = 'abcdefgh'[len(V) % 3:len(V)]",
+    "call-kw": "out = dict(a=V)['a']",
+    "call-star": "out = (lambda *a: a[0])(*[V])",
+    "call-dstar": "out = (lambda **k: k['a'])(**{'a': V})",
+    "lambda-body": "out = (lambda: V)()",
+    "lambda-default": "out = (lambda a=V: a)()",
+    "listcomp-iter": "out = [z for z in [V]][0]",
+    "listcomp-elt": "out = [V for z in [1]][0]",
+    "listcomp-if": "out = [z for z in [1] if V]",
+    "dictcomp": "out = {z: V for z in [1]}[1]",
+    "setcomp": "out = sorted({V for z in [1]})[0]",
+    "genexp": "out = next(V for z in [1])",
+    "nested-comp": "out = [[V for a in [1]] for b in [2]][0][0]",
+    "fstring": "out = f'<{V}>'",
+    "fstring-spec": "out = f'{V!r:>8}'",
+    "def-body": "def _f():\n    return V\nout = _f()",
+    "def-default": "def _f(a=V):\n    return a\nout = _f()",
+    "def-kwonly-default": "def _f(*, a=V):\n    return a\nout = _f()",
+    "nested-def": "def _f():\n    def _g():\n        return V\n    return _g()\nout = _f()",
+    "class-body": "class _C:\n    a = V\nout = _C.a",
+    "decorator": "def _d(f):\n    return lambda: V\n@_d\ndef _f():\n    pass\nout = _f()",
+    "augassign": "out = 'x'\nout += V",
+    "tuple-unpack": "out, _o = V, 1",
+    "starred": "out = [*[V]][0]",
+    "dict-unpack": "out = {**{'a': V}}['a']",
+    "walrus": "out = (_w := V)",
+    "assert": "assert V, V\nout = V",
+    "del": "_t = [V]\nout = _t[0]\ndel _t",
+    "return-in-def": "def _f():\n    if V:\n        return V\nout = _f()",
+    "global-shadow": "def _f(V):\n    return V\nout = _f('param') + V",
+    "comp-shadow": "out = [V for V in ['inner']][0] + V",
+    "lambda-shadow": "out = (lambda V: V)('param') + V",
+    "import-as": "import os.path as _p\nout = V + _p.sep",
+    "attribute": "out = V.upper().lower()",
+    "chained-compare": "out = ('a' < V < 'z')",
+    "conditional-import": "if V:\n    import json as _j\nout = _j.dumps(V)",
+    "match-free": "out = [V, V][1]",
+}
+
+
+class CM:
+    def __init__(self, v):
+        self.v = v
+
+    def __enter__(self):
+        return self.v
+
+    def __exit__(self, *a):
+        return False
+
+
+def check_statement_form(name, scope, strict, ev=None):
+    """the block is run natively in a function whose free names come from a namespace holding V; through the template
+    V is only in the render context: same final value of `out`, and under strict_undefined without V a NameError naming V"""
+    from mako.template import Template
+
+    code = STATEMENT_FORMS[name].replace("V", "ctxv")
+    case = {"part": "form", "name": name, "scope": scope, "strict": strict}
+    ns = {"ctxv": "value", "CM": CM}
+    exec(compile("def __f():\n" + "".join("    " + l + "\n" for l in code.split("\n")) + "    return out\n", "<native>", "exec"), ns)
+    exp = repr(ns["__f"]())
+    block = "<%\n" + code + "\n%>${repr(out)}"
+    if scope == "body":
+        src = block
+    elif scope == "def":
+        src = '<%def name="d()">' + block + "</%def>${d()}"
+    else:
+        src = '<%def name="d()"><%def name="e()">' + block + "</%def>${e()}</%def>${d()}"
+    tag = "\n--- template ---\n" + src
+    try:
+        out = ("ok", Template(src, uri="/c04f_%d.html" % next(_k), strict_undefined=strict).render_unicode(ctxv="value", CM=CM))
+    except Exception as e:
+        out = ("exc", type(e).__name__, str(e)[:200])
+    if out != ("ok", exp):
+        raise Failure(case, "statement form %s in %s (strict=%s): native exec gives %s, template gives %r" % (name, scope, strict, exp, out) + tag,
+                      "statement-form:" + name)
+    if strict:
+        try:
+            out2 = ("ok", Template(src, uri="/c04f_%d.html" % next(_k), strict_undefined=True).render_unicode(CM=CM))
+        except NameError as e:
+            out2 = ("NameError", str(e))
+        except Exception as e:
+            out2 = ("exc", type(e).__name__, str(e)[:200])
+        if out2[0] != "NameError" or "ctxv" not in out2[1]:
+            raise Failure(case, "statement form %s in %s under strict_undefined without the name: expected NameError naming it, got %r" % (name, scope, out2) + tag,
+                          "statement-form-strict:" + name)
+    if ev is not None:
+        ev.evaluations += 1
+        ev.distinct_extra += 1
+        ev.labels["statement-form"] += 1
+
+
 def shard_matrix(task):
     idx, of = task
     core.setup_repo()
@@ -383,6 +496,15 @@ def shard_rest(task):
     core.setup_repo()
     ev = core.Evidence()
     fails = {}
+    for name in STATEMENT_FORMS:
+        for scope in ("body", "def", "nested"):
+            for strict in (False, True):
+                try:
+                    check_statement_form(name, scope, strict, ev)
+                except Failure as f:
+                    if classify(f):
+                        ev.excluded_known[classify(f)] += 1
+                    fails.setdefault(f.key, f)
     for scope in UBL:
         for with_ctx in (False, True):
             for strict in (False, True):
@@ -417,12 +539,20 @@ def run(ctx):
     ctx.ev.notes["exhaustive_domains"] = "binding subsets (size<=2 + 10 triples) x 9 read sites x strict; reserved names x forms x scopes x entry points"
 
 
+def classify(f):
+    if f.case.get("part") == "form" and f.case.get("name") == "comp-shadow" and "NameError" in f.detail and "ctxv" in f.detail:
+        return "C04-comprehension-variable-shadows-context-name"
+    return None
+
+
 def replay(case):
     core.setup_repo()
     try:
         p = case["part"]
         if p == "matrix":
             check_matrix(tuple(case["S"]), case["r"], case["strict"])
+        elif p == "form":
+            check_statement_form(case["name"], case["scope"], case["strict"])
         elif p == "ubl":
             check_ubl(case["scope"], case["ctx"], case["strict"])
         elif p == "reserved-assign":
